@@ -6,6 +6,8 @@ CONSTANTS
   Values <- McValues
   Messages <- McMessages
   Servers <- McServers
+  Forms <- McForms
+  MaxServes = 1
   Deviation = "status-not-applied"
 INVARIANTS ErrorOwnCode
 CHECK_DEADLOCK FALSE
